@@ -1137,3 +1137,428 @@ Proof.
   rewrite (loop_refines sp h D end_ fuel Hn Hsp He HeD); [reflexivity|].
   intros _. apply good_init. exact Hs.
 Qed.
+
+(* ------------------------------------------------------------------ *)
+(*  Every reachable state                                              *)
+(* ------------------------------------------------------------------ *)
+(* the state after at most n cycles of the run (the same iteration as mirror_loop,
+   without the fuel error) *)
+Fixpoint steps (sp : swspec) (h : hist) (end_ : Z) (n : nat) (m : mst) : mst :=
+  match n with
+  | O => m
+  | S k =>
+      let m1 := steps sp h end_ k m in
+      if negb (m_err m1 =? 0) then m1 else
+      let t := mirror_next sp h m1 in
+      if (t =? MAX_DT) || (end_ <=? t) then m1 else mirror_cycle sp h t m1
+  end.
+
+Definition reach (sp : swspec) (h : hist) (start end_ : Z) (n : nat) : mst :=
+  steps sp h end_ n (mirror_init start).
+
+(* a cycle is about to run from m *)
+Definition cycle_due (sp : swspec) (h : hist) (end_ : Z) (m : mst) : Prop :=
+  m_err m = 0 /\ mirror_next sp h m <> MAX_DT /\ mirror_next sp h m < end_.
+
+Lemma cycle_from_good sp h D end_ m :
+  (s_nts sp <= 2)%nat -> sp_bounded D sp -> end_ <= MAX_DT -> end_ + D <= MAX_DT ->
+  Good D m -> cycle_due sp h end_ m ->
+  let t := mirror_next sp h m in
+  let m' := mirror_cycle sp h t m in
+  abs m' = spec_cycle sp h t (abs m) /\ (m_err m' = 0 -> Good D m') /\ (m_err m' = 0 \/ m_err m' = 2).
+Proof.
+  intros Hn Hsp He HeD G (E0 & Hne & Hlt) t m'.
+  destruct (next_ok sp h D m Hn G Hne) as (Hlt' & Hwhy & Hwf). fold t in Hlt', Hwhy, Hwf, Hlt.
+  apply (cycle_refines sp h D t m Hn Hsp G (proj1 Hlt') (proj2 Hlt') ltac:(lia) Hwhy Hwf).
+Qed.
+
+Lemma steps_good sp h D end_ n m :
+  (s_nts sp <= 2)%nat -> sp_bounded D sp -> end_ <= MAX_DT -> end_ + D <= MAX_DT ->
+  Good D m ->
+  (m_err (steps sp h end_ n m) = 0 -> Good D (steps sp h end_ n m)) /\
+  (m_err (steps sp h end_ n m) = 0 \/ m_err (steps sp h end_ n m) = 2).
+Proof.
+  intros Hn Hsp He HeD G. induction n as [|k IH]; simpl.
+  - split; auto. left. apply G.
+  - destruct IH as [IH1 IH2].
+    destruct (m_err (steps sp h end_ k m) =? 0) eqn:E; cbn [negb]; [|split; auto].
+    assert (G1 : Good D (steps sp h end_ k m)) by (apply IH1; lia).
+    destruct ((mirror_next sp h (steps sp h end_ k m) =? MAX_DT) || (end_ <=? mirror_next sp h (steps sp h end_ k m))) eqn:Es.
+    + split; auto.
+    + destruct (cycle_from_good sp h D end_ _ Hn Hsp He HeD G1) as (_ & A & B); auto.
+      unfold cycle_due. repeat split; lia.
+Qed.
+
+Lemma reach_good sp h D start end_ n :
+  (s_nts sp <= 2)%nat -> sp_bounded D sp -> 1 <= start -> end_ <= MAX_DT -> end_ + D <= MAX_DT ->
+  (m_err (reach sp h start end_ n) = 0 -> Good D (reach sp h start end_ n)) /\
+  (m_err (reach sp h start end_ n) = 0 \/ m_err (reach sp h start end_ n) = 2).
+Proof. intros. apply steps_good; auto. apply good_init; auto. Qed.
+
+(* ---- slot_protocol_safe ---- *)
+(* the A/B protocol of the two fixed graph slots *)
+Definition slots_ok (w : swst) : Prop :=
+  match w_active w with
+  | None => w = empty_w
+  | Some a =>
+      (exists c, getg a w = Some c /\ c_started c = true) /\
+      match getg (negb a) w with
+      | None => w_prev w = None
+      | Some c' => c_started c' = false /\ w_prev w = Some (negb a)
+      end
+  end.
+
+(* the slot activate_branch is about to reuse *)
+Definition reuse_slot (w : swst) : bool := match w_active w with Some a => negb a | None => false end.
+
+Lemma good_slots D m : Good D m -> slots_ok (m_w m).
+Proof.
+  intros (_ & _ & _ & _ & H). unfold slots_ok. destruct (w_active (m_w m)) as [a|].
+  - destruct H as (c & k & Hg & _ & (Ist & _) & Ho & _). split; [exists c; auto|exact Ho].
+  - apply H.
+Qed.
+
+Lemma slot_protocol_safe_gen sp h D start end_ n :
+  (s_nts sp <= 2)%nat -> sp_bounded D sp -> 1 <= start -> end_ <= MAX_DT -> end_ + D <= MAX_DT ->
+  let m := reach sp h start end_ n in
+  m_err m <> 4 /\ m_err m <> 6 /\
+  (m_err m = 0 ->
+   slots_ok (m_w m) /\
+   (* the slot that the next switch reuses holds no running graph, and is the
+      slot recorded as previous whenever one is recorded *)
+   match getg (reuse_slot (m_w m)) (m_w m) with Some c => c_started c = false | None => True end /\
+   match w_prev (m_w m) with Some p => p = reuse_slot (m_w m) | None => True end).
+Proof.
+  intros Hn Hsp Hs He HeD m.
+  destruct (reach_good sp h D start end_ n Hn Hsp Hs He HeD) as [HG Herr]. fold m in HG, Herr.
+  split; [lia|]. split; [lia|]. intros E0. pose proof (good_slots D m (HG E0)) as Hsl.
+  split; [exact Hsl|]. unfold slots_ok in Hsl. unfold reuse_slot.
+  destruct (w_active (m_w m)) as [a|].
+  - destruct Hsl as [_ Ho]. destruct (getg (negb a) (m_w m)) as [c'|].
+    + destruct Ho as [A B]. rewrite B. auto.
+    + rewrite Ho. auto.
+  - rewrite Hsl. simpl. auto.
+Qed.
+
+(* ---- switch_follows_active ---- *)
+Lemma follows_active_gen sp h D start end_ fuel :
+  (s_nts sp <= 2)%nat -> sp_bounded D sp -> 1 <= start -> end_ <= MAX_DT -> end_ + D <= MAX_DT ->
+  let m := mirror_run sp h start end_ fuel in
+  let s := spec_run sp h start end_ fuel in
+  outs_of (m_log m) = s_outs s /\ cycles_of (m_log m) = s_cycles s /\ m_err m = s_err s /\
+  s_cur (abs m) = s_cur s.
+Proof.
+  intros Hn Hsp Hs He HeD m s.
+  pose proof (refines sp h D start end_ fuel Hn Hsp Hs He HeD) as R. fold m s in R.
+  rewrite <- R. repeat split; reflexivity.
+Qed.
+
+(* ---- facts about one specification cycle ---- *)
+Definition active_inst (m : mst) : option (Z * inst) := s_cur (abs m).
+
+Lemma spec_eval_err sp t s : s_err (spec_eval sp t s) = s_err s.
+Proof. unfold spec_eval. destruct (s_cur s) as [[k i]|]; auto. destruct (alone_cycle sp t (s_srcs s) i). reflexivity. Qed.
+
+Lemma abs_akey D m : Good D m -> option_map fst (s_cur (abs m)) = w_akey (m_w m).
+Proof.
+  intros (_ & _ & _ & _ & H). unfold abs. cbn [s_cur]. destruct (w_active (m_w m)) as [a|].
+  - destruct H as (c & k & Hg & Hk & _). rewrite Hk, Hg. reflexivity.
+  - destruct H as (-> & _). reflexivity.
+Qed.
+
+Lemma key_tick_ticked sp h t s0 s1 s2 k :
+  tick_of sp h 0 t = Some k -> key_tick (apply_ticks t [s0; s1; s2] (ticks_at sp h t)) t = Some k.
+Proof. intros H. unfold ticks_at. cbn [apply_ticks]. rewrite H. simpl. rewrite Z.eqb_refl. reflexivity. Qed.
+
+Lemma key_tick_quiet sp h t s0 s1 s2 :
+  tick_of sp h 0 t = None -> snd s0 < t -> key_tick (apply_ticks t [s0; s1; s2] (ticks_at sp h t)) t = None.
+Proof.
+  intros H Hl. unfold ticks_at. cbn [apply_ticks]. rewrite H. simpl. destruct s0 as [[v|] lm]; auto.
+  simpl in Hl. replace (lm =? t) with false by lia. reflexivity.
+Qed.
+
+(* ---- unmatched_is_error ---- *)
+Lemma unmatched_gen sp h D end_ m :
+  (s_nts sp <= 2)%nat -> sp_bounded D sp -> end_ <= MAX_DT -> end_ + D <= MAX_DT ->
+  Good D m -> cycle_due sp h end_ m ->
+  let t := mirror_next sp h m in
+  (m_err (mirror_cycle sp h t m) = 2 <->
+   exists k, tick_of sp h 0 t = Some k /\ need_switch sp (w_akey (m_w m)) k = true /\
+             (forall b, ~ In (k, b) (s_cases sp)) /\ s_default sp = None).
+Proof.
+  intros Hn Hsp He HeD G Hdue t.
+  destruct (cycle_from_good sp h D end_ m Hn Hsp He HeD G Hdue) as (Eabs & _ & _). fold t in Eabs.
+  change (m_err (mirror_cycle sp h t m)) with (s_err (abs (mirror_cycle sp h t m))). rewrite Eabs.
+  pose proof (abs_akey D m G) as Hak.
+  destruct (next_ok sp h D m Hn G (proj1 (proj2 Hdue))) as (Hlt & _ & _). fold t in Hlt.
+  destruct G as (_ & Herr & (s0 & s1 & s2 & Es & L0 & _) & _).
+  unfold spec_cycle, spec_switch. cbn [s_srcs s_cur s_err s_ninst s_now s_outs s_cycles].
+  change (s_srcs (abs m)) with (m_srcs m). change (s_err (abs m)) with (m_err m). rewrite Es, Herr, Hak.
+  destruct (tick_of sp h 0 t) as [k|] eqn:Etk.
+  - rewrite (key_tick_ticked sp h t s0 s1 s2 k Etk).
+    destruct (need_switch sp (w_akey (m_w m)) k) eqn:Eneed.
+    + destruct (select_branch sp k) as [br|] eqn:Esel.
+      * cbn [s_err Z.eqb negb]. rewrite spec_eval_err. cbn [s_err]. split; [discriminate|].
+        intros (k' & Hk' & _ & Hc & Hd). injection Hk' as <-.
+        pose proof (proj2 (select_branch_none sp k) (conj Hc Hd)). congruence.
+      * cbn [s_err Z.eqb negb]. split; auto. intros _. exists k.
+        destruct (proj1 (select_branch_none sp k) Esel). auto.
+    + cbn [s_err Z.eqb negb]. rewrite spec_eval_err. cbn [s_err]. split; [discriminate|].
+      intros (k' & Hk' & Hn' & _). injection Hk' as <-. congruence.
+  - match goal with |- context [key_tick ?a ?b] =>
+      replace (key_tick a b) with (@None Z) by (symmetry; apply key_tick_quiet; [exact Etk|lia]) end.
+    cbn [s_err Z.eqb negb]. rewrite spec_eval_err. cbn [s_err]. split; [discriminate|].
+    intros (k' & Hk' & _). discriminate.
+Qed.
+
+(* ---- new_branch_fresh_and_sampled / reselect_is_new_instance ---- *)
+Lemma new_branch_gen sp h D end_ m k br :
+  (s_nts sp <= 2)%nat -> sp_bounded D sp -> end_ <= MAX_DT -> end_ + D <= MAX_DT ->
+  Good D m -> cycle_due sp h end_ m ->
+  let t := mirror_next sp h m in
+  tick_of sp h 0 t = Some k -> need_switch sp (w_akey (m_w m)) k = true -> select_branch sp k = Some br ->
+  let srcs' := apply_ticks t (m_srcs m) (ticks_at sp h t) in
+  let m' := mirror_cycle sp h t m in
+  m_err m' = 0 /\ m_ninst m' = m_ninst m + 1 /\
+  active_inst m' = Some (k, fst (alone_cycle sp t srcs' (fst (inst_start t (fresh_inst br (m_ninst m) t))))).
+Proof.
+  intros Hn Hsp He HeD G Hdue t Etk Eneed Esel srcs' m'.
+  destruct (cycle_from_good sp h D end_ m Hn Hsp He HeD G Hdue) as (Eabs & _ & _). fold t m' in Eabs.
+  pose proof (abs_akey D m G) as Hak.
+  destruct G as (_ & Herr & (s0 & s1 & s2 & Es & _) & _).
+  assert (E : abs m' = spec_eval sp t (mkS t srcs' (Some (k, fst (inst_start t (fresh_inst br (m_ninst m) t))))
+                                         (m_ninst m + 1) (outs_of (m_log m)) (t :: cycles_of (m_log m)) 0)).
+  { rewrite Eabs. unfold spec_cycle, spec_switch. cbn [s_srcs s_cur s_err s_ninst s_now s_outs s_cycles].
+    change (s_srcs (abs m)) with (m_srcs m). change (s_err (abs m)) with (m_err m).
+    change (s_ninst (abs m)) with (m_ninst m). fold srcs'. unfold srcs'. rewrite Es, Herr, Hak.
+    rewrite (key_tick_ticked sp h t s0 s1 s2 k Etk), Eneed, Esel. reflexivity. }
+  unfold active_inst.
+  change (m_err m') with (s_err (abs m')). change (m_ninst m') with (s_ninst (abs m')). rewrite E.
+  unfold spec_eval. cbn [s_cur s_srcs].
+  destruct (alone_cycle sp t srcs' (fst (inst_start t (fresh_inst br (m_ninst m) t)))) as [i' em].
+  repeat split; reflexivity.
+Qed.
+
+(* what a freshly selected instance is, and what it sees *)
+Lemma fresh_sees_held sp br id t srcs :
+  t < MAX_DT ->
+  let i0 := fst (inst_start t (fresh_inst br id t)) in
+  i_state i0 = 0 /\ i_id i0 = id /\ i_br i0 = br /\ i_samp i0 = t /\
+  events (i_sch i0) = (if b_sos (br_body br) then [(t, 0)] else []) /\
+  views sp t srcs i0 = map (fun s => mkIv (is_some (fst s)) true (match fst s with Some v => v | None => 0 end))
+                           (bound_srcs sp br srcs) /\
+  due t (views sp t srcs i0) i0 = b_sos (br_body br) || existsb (fun s => is_some (fst s)) (bound_srcs sp br srcs).
+Proof.
+  intros Ht i0. unfold i0. rewrite (inst_start_fresh br id t Ht). cbn [i_state i_id i_br i_samp i_sch].
+  assert (V : forall l, map (view_of t t) l =
+                        map (fun s => mkIv (is_some (fst s)) true (match fst s with Some v => v | None => 0 end)) l).
+  { induction l as [|s r IH]; simpl; auto. rewrite IH. f_equal. unfold view_of. destruct (fst s); simpl; auto.
+    all: rewrite Z.eqb_refl; reflexivity. }
+  repeat split; auto.
+  - destruct (b_sos (br_body br)); reflexivity.
+  - unfold views. cbn [i_samp i_br]. apply V.
+  - unfold due, views. cbn [i_samp i_br i_sch]. rewrite V. f_equal.
+    + destruct (b_sos (br_body br)); unfold is_scheduled_now; simpl; auto. rewrite Z.eqb_refl. reflexivity.
+    + induction (bound_srcs sp br srcs) as [|s r IH]; simpl; auto. rewrite IH. destruct (fst s); reflexivity.
+Qed.
+
+(* ---- instance identities: a selection always creates an instance with a new id ---- *)
+Lemma node_eval_id t ivs i : i_id (r_inst (node_eval t ivs i)) = i_id i.
+Proof.
+  unfold node_eval. destruct (match ivs with [] => true | _ :: _ => forallb v_valid ivs end).
+  - destruct (b_step (br_body (i_br i)) (i_state i) (is_scheduled_now t (i_sch i)) ivs) as [[st' em] wk].
+    destruct wk as [d|].
+    + destruct (schedule t true (t + d) 0 (i_sch i)) as [s' p].
+      destruct (if is_scheduled_now t (i_sch i) then advance t s' else _) as [s2 p2]. reflexivity.
+    + destruct (if is_scheduled_now t (i_sch i) then advance t (i_sch i) else _) as [s2 p2]. reflexivity.
+  - destruct (if is_scheduled_now t (i_sch i) then advance t (i_sch i) else _) as [s2 p2]. reflexivity.
+Qed.
+
+Lemma inst_start_id t i : i_id (fst (inst_start t i)) = i_id i.
+Proof. unfold inst_start. destruct (b_sos (br_body (i_br i))); auto. destruct (schedule t false t 0 (i_sch i)). reflexivity. Qed.
+
+Definition sid_ok (s : sst) : Prop :=
+  match s_cur s with Some (_, i) => i_id i < s_ninst s | None => True end.
+
+Lemma spec_cycle_id sp h t s : sid_ok s -> sid_ok (spec_cycle sp h t s).
+Proof.
+  intros H. unfold spec_cycle.
+  set (s0 := mkS t _ (s_cur s) (s_ninst s) (s_outs s) (t :: s_cycles s) (s_err s)).
+  assert (H0 : sid_ok s0) by exact H.
+  assert (H1 : sid_ok (spec_switch sp t s0)).
+  { unfold spec_switch. destruct (key_tick (s_srcs s0) t) as [k|]; auto.
+    destruct (need_switch sp (option_map fst (s_cur s0)) k); auto.
+    destruct (select_branch sp k) as [br|]; auto.
+    unfold sid_ok. cbn [s_cur s_ninst]. rewrite inst_start_id. simpl. lia. }
+  destruct (negb (s_err (spec_switch sp t s0) =? 0)); auto.
+  unfold spec_eval, sid_ok in *. destruct (s_cur (spec_switch sp t s0)) as [[k i]|] eqn:Ec; [|rewrite Ec; exact I].
+  unfold alone_cycle. destruct (due t (views sp t (s_srcs (spec_switch sp t s0)) i) i); cbn [s_cur s_ninst fst]; auto.
+  rewrite node_eval_id. exact H1.
+Qed.
+
+Lemma reach_id_ok sp h D start end_ n :
+  (s_nts sp <= 2)%nat -> sp_bounded D sp -> 1 <= start -> end_ <= MAX_DT -> end_ + D <= MAX_DT ->
+  sid_ok (abs (reach sp h start end_ n)).
+Proof.
+  intros Hn Hsp Hs He HeD. unfold reach. induction n as [|k IH]; simpl.
+  - exact I.
+  - destruct (steps_good sp h D end_ k (mirror_init start) Hn Hsp He HeD (good_init D start Hs)) as [G _].
+    destruct (m_err (steps sp h end_ k (mirror_init start)) =? 0) eqn:E; cbn [negb]; auto.
+    destruct ((mirror_next sp h (steps sp h end_ k (mirror_init start)) =? MAX_DT) ||
+              (end_ <=? mirror_next sp h (steps sp h end_ k (mirror_init start)))) eqn:Es; auto.
+    destruct (cycle_from_good sp h D end_ _ Hn Hsp He HeD (G ltac:(lia))) as (Eabs & _).
+    { unfold cycle_due. repeat split; lia. }
+    rewrite Eabs. apply spec_cycle_id. exact IH.
+Qed.
+
+(* ---- old_branch_silent: the started gate ---- *)
+Lemma notify_stopped sp t tks b m c :
+  getg b (m_w m) = Some c -> c_started c = false -> notify_child sp t tks b m = m.
+Proof. intros Hg Hs. unfold notify_child. rewrite Hg, Hs. reflexivity. Qed.
+
+Lemma child_evaluate_stopped t ivs c :
+  c_started c = false ->
+  cr_err (child_evaluate t ivs c) = 5 /\ cr_log (child_evaluate t ivs c) = [] /\
+  cr_emit (child_evaluate t ivs c) = None /\ cr_push (child_evaluate t ivs c) = None.
+Proof. intros H. unfold child_evaluate. rewrite H. simpl. auto. Qed.
+
+Lemma m_w_parent_schedule_opt p m : m_w (parent_schedule_opt p m) = m_w m.
+Proof.
+  destruct p as [w|]; auto. unfold parent_schedule_opt, parent_schedule.
+  destruct (w <? m_now m); auto. destruct ((m_pslot m <=? m_now m) || (w <? m_pslot m)); auto.
+Qed.
+
+Lemma eval_phase_other sp t m a :
+  w_active (m_w m) = Some a -> getg (negb a) (m_w (eval_phase sp t m)) = getg (negb a) (m_w m).
+Proof.
+  intros Ha. unfold eval_phase. rewrite Ha. destruct (getg a (m_w m)) as [c|]; auto.
+  set (r := child_evaluate t (views sp t (m_srcs m) (c_inst c)) c).
+  assert (E : forall mm, m_w mm = setg a (Some (cr_child r)) (m_w m) ->
+                getg (negb a) (m_w mm) = getg (negb a) (m_w m)).
+  { intros mm ->. apply getg_setg_other. }
+  destruct (negb (cr_err r =? 0)).
+  - apply E. destruct (cr_emit r); reflexivity.
+  - rewrite m_w_parent_schedule_opt. apply E. destruct (cr_emit r); reflexivity.
+Qed.
+
+Lemma old_silent_gen sp h D start end_ n :
+  (s_nts sp <= 2)%nat -> sp_bounded D sp -> 1 <= start -> end_ <= MAX_DT -> end_ + D <= MAX_DT ->
+  let m := reach sp h start end_ n in
+  m_err m = 0 ->
+  forall a, w_active (m_w m) = Some a ->
+  forall c', getg (negb a) (m_w m) = Some c' ->
+    (* the retired graph is stopped *)
+    c_started c' = false /\
+    (* so no tick of its inputs reaches it *)
+    (forall t tks, notify_child sp t tks (negb a) m = m) /\
+    (* evaluating the switch does not touch it (only the active slot is evaluated) *)
+    (forall t, getg (negb a) (m_w (eval_phase sp t m)) = Some c') /\
+    (* and the runtime would refuse to evaluate it *)
+    (forall t ivs, cr_err (child_evaluate t ivs c') = 5 /\ cr_emit (child_evaluate t ivs c') = None).
+Proof.
+  intros Hn Hsp Hs He HeD m E0 a Ha c' Hg.
+  destruct (reach_good sp h D start end_ n Hn Hsp Hs He HeD) as [HG _]. fold m in HG.
+  pose proof (good_slots D m (HG E0)) as Hsl. unfold slots_ok in Hsl. rewrite Ha, Hg in Hsl.
+  destruct Hsl as [_ [Hst _]].
+  split; [exact Hst|]. split; [intros; eapply notify_stopped; eauto|].
+  split; [intros; rewrite eval_phase_other; auto|].
+  intros t ivs. destruct (child_evaluate_stopped t ivs c' Hst) as (A & _ & B & _). auto.
+Qed.
+
+(* ------------------------------------------------------------------ *)
+(*  The theorems of Props/C12.v, over every reachable state            *)
+(* ------------------------------------------------------------------ *)
+Section Reachable.
+  Variables (sp : swspec) (h : hist) (D start end_ : Z).
+  Hypothesis Hn : (s_nts sp <= 2)%nat.
+  Hypothesis Hsp : sp_bounded D sp.
+  Hypothesis Hs : 1 <= start.
+  Hypothesis He : end_ <= MAX_DT.
+  Hypothesis HeD : end_ + D <= MAX_DT.
+
+  Lemma reach_due_good n : cycle_due sp h end_ (reach sp h start end_ n) -> Good D (reach sp h start end_ n).
+  Proof. intros Hd. apply (reach_good sp h D start end_ n Hn Hsp Hs He HeD). apply Hd. Qed.
+
+  Lemma unmatched_reach n :
+    let m := reach sp h start end_ n in
+    cycle_due sp h end_ m ->
+    let t := mirror_next sp h m in
+    (m_err (mirror_cycle sp h t m) = 2 <->
+     exists k, tick_of sp h 0 t = Some k /\ need_switch sp (w_akey (m_w m)) k = true /\
+               (forall b, ~ In (k, b) (s_cases sp)) /\ s_default sp = None).
+  Proof. intros m Hd. apply (unmatched_gen sp h D end_ m Hn Hsp He HeD (reach_due_good n Hd) Hd). Qed.
+
+  Lemma new_branch_reach n k br :
+    let m := reach sp h start end_ n in
+    cycle_due sp h end_ m ->
+    let t := mirror_next sp h m in
+    tick_of sp h 0 t = Some k -> need_switch sp (w_akey (m_w m)) k = true -> select_branch sp k = Some br ->
+    let srcs' := apply_ticks t (m_srcs m) (ticks_at sp h t) in
+    let m' := mirror_cycle sp h t m in
+    m_err m' = 0 /\ m_ninst m' = m_ninst m + 1 /\
+    active_inst m' = Some (k, fst (alone_cycle sp t srcs' (fst (inst_start t (fresh_inst br (m_ninst m) t))))).
+  Proof. intros m Hd. apply (new_branch_gen sp h D end_ m k br Hn Hsp He HeD (reach_due_good n Hd) Hd). Qed.
+
+  Lemma reselect_reach n k br :
+    let m := reach sp h start end_ n in
+    cycle_due sp h end_ m ->
+    let t := mirror_next sp h m in
+    tick_of sp h 0 t = Some k -> need_switch sp (w_akey (m_w m)) k = true -> select_branch sp k = Some br ->
+    let m' := mirror_cycle sp h t m in
+    exists i', active_inst m' = Some (k, i') /\ i_id i' = m_ninst m /\
+               (forall k0 i0, active_inst m = Some (k0, i0) -> i_id i0 < i_id i').
+  Proof.
+    intros m Hd t Etk Eneed Esel m'.
+    destruct (new_branch_reach n k br Hd Etk Eneed Esel) as (_ & _ & Ea). fold m t m' in Ea.
+    eexists. split; [exact Ea|].
+    assert (Eid : i_id (fst (alone_cycle sp t (apply_ticks t (m_srcs m) (ticks_at sp h t))
+                                 (fst (inst_start t (fresh_inst br (m_ninst m) t))))) = m_ninst m).
+    { unfold alone_cycle. destruct (due _ _ _); cbn [fst]; rewrite ?node_eval_id, inst_start_id; reflexivity. }
+    split; [exact Eid|]. intros k0 i0 H0. rewrite Eid.
+    pose proof (reach_id_ok sp h D start end_ n Hn Hsp Hs He HeD) as Hid. fold m in Hid.
+    unfold sid_ok in Hid. unfold active_inst in H0. rewrite H0 in Hid. exact Hid.
+  Qed.
+End Reachable.
+
+(* the harness vocabulary satisfies the boundedness hypothesis *)
+Lemma table_bounded D p : p_d p <= D -> body_bounded D (table_body p).
+Proof.
+  intros H st wk ivs. unfold table_body, table_step. cbn [b_step snd].
+  match goal with |- context [if ?b then Some (p_d p) else None] => destruct b end; auto.
+Qed.
+
+Lemma spec_of_bounded D d :
+  1 <= D -> Forall (fun p => p_d p <= D) (d_tab d) -> sp_bounded D (spec_of d).
+Proof.
+  intros H1 Hf k br Hsel.
+  assert (Hnth : forall sl, p_d (nth (Z.to_nat sl) (d_tab d) dflt_bp) <= D).
+  { intros sl. destruct (nth_in_or_default (Z.to_nat sl) (d_tab d) dflt_bp) as [Hin| ->]; [|simpl; lia].
+    rewrite Forall_forall in Hf. auto. }
+  assert (Hb : forall sl uk, body_bounded D (br_body (mk_branch d sl uk))).
+  { intros. unfold mk_branch. cbn [br_body]. apply table_bounded. apply Hnth. }
+  unfold select_branch, spec_of in Hsel. cbn [s_cases s_default] in Hsel.
+  destruct (find_case k (map (fun e => (fst (fst e), mk_branch d (snd (fst e)) (snd e))) (d_ents d))) as [b|] eqn:Ef.
+  - injection Hsel as <-. clear -Ef Hb. induction (d_ents d) as [|e r IH]; simpl in Ef; [discriminate|].
+    destruct (fst (fst e) =? k); [injection Ef as <-; apply Hb|auto].
+  - destruct (d_dflt d) as [[sl uk]|]; [injection Hsel as <-; apply Hb|discriminate].
+Qed.
+
+Lemma find_case_in k cs b : find_case k cs = Some b -> exists k', In (k', b) cs.
+Proof.
+  induction cs as [|[k' b'] r IH]; simpl; [discriminate|].
+  destruct (k' =? k).
+  - intros H. injection H as <-. exists k'. left. reflexivity.
+  - intros H. destruct (IH H) as (k'' & Hin). exists k''. right. exact Hin.
+Qed.
+
+Lemma sp_bounded_intro D sp :
+  Forall (fun kb => body_bounded D (br_body (snd kb))) (s_cases sp) ->
+  match s_default sp with Some b => body_bounded D (br_body b) | None => True end ->
+  sp_bounded D sp.
+Proof.
+  intros Hc Hd k br H. unfold select_branch in H.
+  destruct (find_case k (s_cases sp)) as [b|] eqn:E.
+  - injection H as <-. destruct (find_case_in k _ b E) as (k' & Hin).
+    rewrite Forall_forall in Hc. apply (Hc (k', b) Hin).
+  - rewrite H in Hd. exact Hd.
+Qed.
